@@ -1153,17 +1153,20 @@ func (r *aRun) oracleC17(v *aView) {
 	}
 	okN := strings.Count(r.logbuf.String(), "reloaded config")
 	failN := strings.Count(r.logbuf.String(), "failed to reload")
-	wantOK, wantFail := 0, 0
+	wantOK, wantFail, either := 0, 0, 0
 	for _, k := range r.reloads {
-		if k == "valid2" {
+		switch k {
+		case "valid2":
 			wantOK++
-		} else {
+		case "addoutput":
+			either++ // the property does not say whether a changed number of outputs is compatible: rejected or working, both are fine
+		default:
 			wantFail++
 		}
 	}
 	out.Obligations++
 	// a SIGHUP that arrives while a reload is in progress may be coalesced (channel of one): never more effects than signals
-	if okN > wantOK || failN > wantFail {
+	if okN > wantOK+either || failN > wantFail+either {
 		r.note("C17", "reload-outcome", "reload-outcome", "%d reloads succeeded and %d failed, but only %d valid and %d invalid/incompatible configurations were signalled", okN, failN, wantOK, wantFail)
 	}
 	if wantOK == 0 && okN == 0 {
